@@ -2258,13 +2258,13 @@ theorem Inv.stepMut {σ : State} {T : List V} {l : Loc} (s : Step) (inv : Inv σ
       · left; exact ⟨_, h1, Or.inl rfl⟩
       · right; exact ⟨σ', _, h1, inv', hs, hv⟩
     | arr _ => left; exact ⟨_, rfl, Or.inr rfl⟩
-    | null => left; exact ⟨_, rfl, Or.inr rfl⟩
-    | bool _ => left; exact ⟨_, rfl, Or.inr rfl⟩
-    | int _ => left; exact ⟨_, rfl, Or.inr rfl⟩
-    | num _ => left; exact ⟨_, rfl, Or.inr rfl⟩
-    | flt _ => left; exact ⟨_, rfl, Or.inr rfl⟩
-    | sstr _ => left; exact ⟨_, rfl, Or.inr rfl⟩
-    | str _ => left; exact ⟨_, rfl, Or.inr rfl⟩
+    | null => right; exact ⟨σ, l, rfl, inv, rfl, hl⟩
+    | bool _ => right; exact ⟨σ, l, rfl, inv, rfl, hl⟩
+    | int _ => right; exact ⟨σ, l, rfl, inv, rfl, hl⟩
+    | num _ => right; exact ⟨σ, l, rfl, inv, rfl, hl⟩
+    | flt _ => right; exact ⟨σ, l, rfl, inv, rfl, hl⟩
+    | sstr _ => right; exact ⟨σ, l, rfl, inv, rfl, hl⟩
+    | str _ => right; exact ⟨σ, l, rfl, inv, rfl, hl⟩
 
 
 /-- a whole mutable path: the invariant holds whether or not a step is refused -/
@@ -2275,17 +2275,10 @@ theorem Inv.resolveMut {T : List V} (src : Option Loc) : ∀ (steps : List Step)
   | s0 :: rest, σ, l, inv, hl => by
     simp only [Var.resolveMut]
     cases hn : normStep σ l s0 with
-    | error e =>
-      have he : e = .badarg := by
-        unfold normStep at hn
-        split at hn
-        · split at hn
-          · cases hn; rfl
-          · cases hn
-        · cases hn
+    | none =>
       simp only []
-      exact ⟨σ, .error e, rfl, inv, rfl, Or.inl ⟨e, rfl, Or.inr (Or.inl he)⟩⟩
-    | ok s =>
+      exact Inv.resolveMut src rest σ l inv hl
+    | some s =>
     simp only []
     by_cases hinv : invalidates σ l s src = true
     · simp only [hinv, Bool.true_and, if_true]
@@ -3627,6 +3620,30 @@ theorem Inv.opBody {σ : State} {t : Loc} (sl : Option Loc) (op : Op) (inv : Inv
     | flt _ => exact Or.inl ⟨_, rfl, ba⟩
     | arr _ => exact Or.inl ⟨_, rfl, ba⟩
     | obj _ => exact Or.inl ⟨_, rfl, ba⟩
+  | setCs p q off =>
+    simp only [Var.opBody, Var.assignCs]
+    rcases Inv.srcVal (σ := σ) (T := []) sl with h1 | ⟨src, h1, _⟩
+    · rw [h1]; exact Or.inl ⟨_, rfl, srcMovedR⟩
+    · rw [h1]
+      cases src with
+      | str s =>
+        simp only []
+        split
+        · exact Or.inr (inv.assignString hl)
+        · exact Or.inl ⟨_, rfl, ba⟩
+      | sstr s =>
+        simp only []
+        split
+        · exact Or.inr (inv.assignString hl)
+        · exact Or.inl ⟨_, rfl, ba⟩
+      | none => exact Or.inl ⟨_, rfl, ba⟩
+      | null => exact Or.inl ⟨_, rfl, ba⟩
+      | bool _ => exact Or.inl ⟨_, rfl, ba⟩
+      | int _ => exact Or.inl ⟨_, rfl, ba⟩
+      | num _ => exact Or.inl ⟨_, rfl, ba⟩
+      | flt _ => exact Or.inl ⟨_, rfl, ba⟩
+      | arr _ => exact Or.inl ⟨_, rfl, ba⟩
+      | obj _ => exact Or.inl ⟨_, rfl, ba⟩
   | clone k q => exact Or.inl ⟨_, rfl, ba⟩
   | copy k q => exact Or.inl ⟨_, rfl, ba⟩
   | drop k => exact Or.inl ⟨_, rfl, ba⟩
@@ -3838,6 +3855,7 @@ theorem Inv.rootOp {σ : State} (op : Op) (inv : Inv σ []) : BodyOK σ (Var.roo
   | clear p => exact Or.inl ⟨_, rfl, ba⟩
   | extend p q => exact Or.inl ⟨_, rfl, ba⟩
   | setSub p off => exact Or.inl ⟨_, rfl, ba⟩
+  | setCs p q off => exact Or.inl ⟨_, rfl, ba⟩
 
 /-- result of a statement: executed, or refused by one of the guards -/
 def Safe : Except Err Unit → Prop
